@@ -93,7 +93,11 @@ structure GState where
   cIf : Nat := 0
   cWhile : Nat := 0
   cFor : Nat := 0
+  abs : List String := []           -- arrays declared outside the zero page (`VariableMemory` ≠ Zeropage)
   deriving Repr, DecidableEq, Inhabited
+
+/-- is the array in the zero page? (decides between `STY t,X` and `TYA ; STA t,X`) -/
+def zpL (abs : List String) (t : String) : Bool := !abs.contains t
 
 def GState.ctr (g : GState) : Ctr → Nat
   | .cIf => g.cIf | .cWhile => g.cWhile | .cFor => g.cFor
@@ -122,6 +126,11 @@ def branchInstr (g : GState) (op : COp) (label : Lbl) : List GLine × GState :=
     let here : Lbl := ⟨.ifhere, g.cIf + 1⟩
     ([.br .BEQ here, .br .BCS label, .lab here], { g with cIf := g.cIf + 1, flags := none })
 
+/-- an element subscripted by a register -/
+def RA.isRegEl : RA → Bool
+  | .of (.el _ .x) | .of (.el _ .y) => true
+  | _ => false
+
 def RA.isZero : RA → Bool
   | .of (.const n) => n == 0
   | _ => false
@@ -132,7 +141,7 @@ def orient (l r : RA) : RA × RA × Bool :=
   match l with
   | .x | .y => (l, r, false)
   | .of (.const _) => (r, l, true)
-  | .of (.var _) => if r.isReg then (r, l, true) else (l, r, false)
+  | .of _ => if r.isReg then (r, l, true) else (l, r, false)
 
 /-- the operator after negation and, when the operands were exchanged, mirroring -/
 def finalOp (op : COp) (negate switch : Bool) : COp :=
@@ -144,9 +153,11 @@ def loadRefMn : LV → Mn
   | .var _ => .LDA
   | .x => .CPX
   | .y => .CPY
+  | .el _ _ => .LDA
 
 def loadRefOp : LV → Atom
   | .var v => .var v
+  | .el t i => .el t i
   | _ => .const 0
 
 def loadRef (ref : LV) : List GLine := [.ins (loadRefMn ref) (some (loadRefOp ref))]
@@ -165,11 +176,18 @@ def cmpMn : LV → Mn
   | .var _ => .CMP
   | .x => .CPX
   | .y => .CPY
+  | .el _ _ => .CMP
 
-/-- `LDA v ; CMP right` / `CPX right` / `CPY right` -/
+/-- `LDA v ; CMP right` / `CPX right` / `CPY right`; a register against an element subscripted by a
+    register goes through A (`CPX t,X` does not exist) -/
 def cmpPre : LV → Atom → List GLine
   | .var v, right => [.ins .LDA (some (.var v)), .ins .CMP (some right)]
+  | .el t i, right => [.ins .LDA (some (.el t i)), .ins .CMP (some right)]
+  | .x, .el t .x => [.ins .TXA none, .ins .CMP (some (.el t .x))]
+  | .x, .el t .y => [.ins .TXA none, .ins .CMP (some (.el t .y))]
   | .x, right => [.ins .CPX (some right)]
+  | .y, .el t .x => [.ins .TYA none, .ins .CMP (some (.el t .x))]
+  | .y, .el t .y => [.ins .TYA none, .ins .CMP (some (.el t .y))]
   | .y, right => [.ins .CPY (some right)]
 
 /-- the compare, then the branches; the flags are unknown afterwards -/
@@ -184,7 +202,10 @@ def genCondEx (g : GState) (l r : RA) (op : COp) (negate : Bool) (label : Lbl) :
   | (.of (.var v), .of right, switch) =>
     if RA.isZero (.of right) then zeroTest g (.var v) (finalOp op negate switch) label
     else cmpTest g (.var v) right (finalOp op negate switch) label
-  | (.of (.var _), _, _) => ([], g)                   -- cannot happen: a register right operand goes left
+  | (.of (.el t i), .of right, switch) =>
+    if RA.isZero (.of right) then zeroTest g (.el t i) (finalOp op negate switch) label
+    else cmpTest g (.el t i) right (finalOp op negate switch) label
+  | (.of _, _, _) => ([], g)                          -- cannot happen: a register right operand goes left
   | (.x, .of right, switch) =>
     if RA.isZero (.of right) && g.flags == some .x then zeroTest g .x (finalOp op negate switch) label
     else cmpTest g .x right (finalOp op negate switch) label
@@ -229,11 +250,11 @@ def Cond.singleExit : Cond → Bool
 
 /-! ### statements -/
 
-def flatLines (s : RStmt) : List GLine :=
-  (rtemplate (none : Option Atom) (fun a => some a) s).map fun p => .ins p.1 p.2
+def flatLines (zp : String → Bool) (s : RStmt) : List GLine :=
+  (rtemplate (none : Option Atom) (fun a => some a) zp s).map fun p => .ins p.1 p.2
 
 def genFlat (g : GState) (s : RStmt) : List GLine × GState :=
-  (flatLines s, { g with flags := flagsAfter g.flags s })
+  (flatLines (zpL g.abs) s, { g with flags := flagsAfter (zpL g.abs) g.flags s })
 
 def gen (g : GState) : SStmt → List GLine × GState
   | .flat s => genFlat g s
@@ -286,6 +307,7 @@ def gen (g : GState) : SStmt → List GLine × GState
 
 def CondOK : Cond → Bool
   | .cmp op a b => !(a.isConst && b.isConst) && !(a.isReg && b.isReg) && !(op.ordered && (RA.isZero a || RA.isZero b))
+      && !(RA.isRegEl a && b.isReg)   -- `t[X] == X` compares X with itself (known finding): outside the fragment
   | .and a b => CondOK a && CondOK b
   | .or a b => CondOK a && CondOK b
   | .not c => CondOK c
